@@ -9,7 +9,7 @@ def NONE_MORE(): return f'nativeCalls[0] == {N0}'
 def LOG_SAME_BEFORE():
     # entries before the call's first new entry are untouched
     # one quantifier per log component (each gets its own trigger)
-    return '(' + ' && '.join(f'(forall n int :: (0 <= n && n < {N0}) ==> {g}[n] == old({g}[n]))' for g in NATIVE[1:]) + ')'
+    return '(' + ' && '.join(f'(forall n int :: n < {N0} ==> {g}[n] == old({g}[n]))' for g in NATIVE[1:]) + ')'
 
 w('''// ---------------------------------------------------------------------------------------------
 // precompiles_staking.go — state-changing methods (C11). Ghost log of the native messages handed to the SDK message servers
@@ -48,15 +48,15 @@ def helper(recv_t, name, sig, kind, deleg_is, val_is, extra=''):
     w()
 COIN = f' && nativeDenom[{N0}] == amount.Denom && nativeAmount[{N0}] == iv(amount.Amount)'
 helper('stakingCustomPrecompiledContractRwDelegate', 'delegate', 'ctx sdk.Context, delegator sdk.AccAddress, validator sdk.ValAddress, amount sdk.Coin', 1,
-       f'bech32Bytes(nativeDelegator[{N0}]) == bytes(delegator)', f'nativeValidator[{N0}] == codecStr(2, bytes(validator))', COIN)
+       f'((0 < len(delegator) && len(delegator) <= 255) ==> bech32Bytes(nativeDelegator[{N0}]) == bytes(delegator))', f'nativeValidator[{N0}] == codecStr(2, bytes(validator))', COIN)
 helper('stakingCustomPrecompiledContractRwUnDelegate', 'undelegate', 'ctx sdk.Context, delegator sdk.AccAddress, validator sdk.ValAddress, amount sdk.Coin', 2,
-       f'bech32Bytes(nativeDelegator[{N0}]) == bytes(delegator)', f'nativeValidator[{N0}] == codecStr(2, bytes(validator))', COIN)
+       f'((0 < len(delegator) && len(delegator) <= 255) ==> bech32Bytes(nativeDelegator[{N0}]) == bytes(delegator))', f'nativeValidator[{N0}] == codecStr(2, bytes(validator))', COIN)
 helper('stakingCustomPrecompiledContractRwReDelegate', 'redelegate', 'ctx sdk.Context, delegator sdk.AccAddress, srcVal, dstVal sdk.ValAddress, amount sdk.Coin', 3,
-       f'bech32Bytes(nativeDelegator[{N0}]) == bytes(delegator)', f'nativeValidatorSrc[{N0}] == codecStr(2, bytes(srcVal)) && nativeValidator[{N0}] == codecStr(2, bytes(dstVal))', COIN)
+       f'((0 < len(delegator) && len(delegator) <= 255) ==> bech32Bytes(nativeDelegator[{N0}]) == bytes(delegator))', f'nativeValidatorSrc[{N0}] == codecStr(2, bytes(srcVal)) && nativeValidator[{N0}] == codecStr(2, bytes(dstVal))', COIN)
 helper('stakingCustomPrecompiledContractRwWithdrawReward', 'withdrawRewardWithFormattedAddress', 'ctx sdk.Context, delegator, validator string', 4,
        f'nativeDelegator[{N0}] == delegator', f'nativeValidator[{N0}] == validator')
 helper('stakingCustomPrecompiledContractRwWithdrawReward', 'withdrawReward', 'ctx sdk.Context, delegator sdk.AccAddress, validator sdk.ValAddress', 4,
-       f'bech32Bytes(nativeDelegator[{N0}]) == bytes(delegator)', f'nativeValidator[{N0}] == codecStr(2, bytes(validator))')
+       f'((0 < len(delegator) && len(delegator) <= 255) ==> bech32Bytes(nativeDelegator[{N0}]) == bytes(delegator))', f'nativeValidator[{N0}] == codecStr(2, bytes(validator))')
 
 # ---- Execute of delegate / undelegate / redelegate / withdrawReward ----------------------------------------------------
 CALLER = 'addrBytes(caller.Address())'
@@ -101,10 +101,10 @@ w(f'//@ func (e {WR}) withdrawRewards(ctx sdk.Context, delegator sdk.AccAddress)
 w('//@   requires e.withdrawReward.contract != nil')
 w(f'//@   modifies {", ".join(NATIVE2)}, {SDKMOD("ctx")}, e.withdrawReward.contract.cacheStakingMetadata')
 w(f'//@   ensures[C11.withdraw_rewards_only_grows] nativeCalls[0] >= {N0} && {LOG_SAME2}')
-w(f'//@   ensures[C11.withdraw_rewards_for_delegator_only] {NEW_ENTRIES(f"nativeKind[n] == 4 && bech32Bytes(nativeDelegator[n]) == bytes(delegator) && nativeLayer[n] == layer(ctx) && nativeSigChecks[n] == sigChecks[0]")}')
+w(f'//@   ensures[C11.withdraw_rewards_for_delegator_only] {NEW_ENTRIES(f"nativeKind[n] == 4 && ((0 < len(delegator) && len(delegator) <= 255) ==> bech32Bytes(nativeDelegator[n]) == bytes(delegator)) && nativeLayer[n] == layer(ctx) && nativeSigChecks[n] == sigChecks[0]")}')
 w('//@ loop 2')
 w(f'//@   modifies {", ".join(NATIVE2)}, {SDKMOD("ctx")}')
-w(f'//@   invariant nativeCalls[0] >= {N0} && sigChecks[0] == old(sigChecks[0]) && bech32Bytes(delegatorAddrStr) == bytes(delegator) && {LOG_SAME2}')
+w(f'//@   invariant nativeCalls[0] >= {N0} && sigChecks[0] == old(sigChecks[0]) && ((0 < len(delegator) && len(delegator) <= 255) ==> bech32Bytes(delegatorAddrStr) == bytes(delegator)) && {LOG_SAME2}')
 w(f'//@   invariant {NEW_ENTRIES(f"nativeKind[n] == 4 && nativeDelegator[n] == delegatorAddrStr && nativeLayer[n] == layer(ctx) && nativeSigChecks[n] == sigChecks[0]")}')
 w()
 w(f'//@ func (e {WR}) Execute(caller corevm.ContractRef, contractAddr common.Address, input []byte, env cpcExecutorEnv) (ret []byte, err error)')
